@@ -8,7 +8,7 @@ from .common import call
 
 PROP = "C03"
 LEVEL = "exploration"
-CASES = {"quick": 640, "thorough": 32000}
+CASES = {"quick": 640, "thorough": 160000}
 SHARDS = {"quick": 8, "thorough": 16}
 ANCHORS = [
     "api.py:Converter.parse_uri", "api.py:Converter.expand_reference", "api.py:Converter.expand_pair_all",
